@@ -18,13 +18,16 @@ pub fn new_box(area: &str) -> Option<Box<dyn VerifBox>> {
         "c17" => Some(Box::new(
             crate::protocol::libp2p::kademlia::verif_c17::StoreBox::new(),
         )),
+        "c20" => Some(Box::new(
+            crate::protocol::libp2p::bitswap::verif_c20::BitswapBox::new(),
+        )),
         _ => None,
     }
 }
 
 /// Names of all adapters.
 pub fn areas() -> Vec<&'static str> {
-    vec!["c17"]
+    vec!["c17", "c20"]
 }
 
 /// Decode a hex string.
